@@ -25,6 +25,7 @@ structure Chk where
   root : Option ITree.T := none
   lastRec : Nat := 0
   corrupted : Bool := false
+  recs : Nat := 0                  -- `Recs`: number of the chunk's records the hull accounts for (0 = unknown)
 deriving Inhabited
 
 structure St where
@@ -48,6 +49,7 @@ def onWrite (s : St) (first last : Nat) (cid : Nat) (mn mx : Int) : St × R :=
     | some l =>
       if l.id != cid then (s.chunks ++ [({ id := cid, minTs := mn, maxTs := mx } : Chk)], true)
       else (updLast s.chunks (fun c => { c with minTs := min c.minTs mn, maxTs := max c.maxTs mx }), false)
+  let chunks := updLast chunks (fun c => { c with recs := last + 1 })
   let s := { s with chunks := chunks }
   match chunks.getLast? with
   | none => (s, .ok)
